@@ -668,7 +668,10 @@ theorem reinit_supported_bridge :
     Gen.C11.reinitSupported.all (fun r => documentedSupported r.2.1 == some r.2.2) = true
     ∧ Gen.C11.reinitSupported.length = (Gen.C11.supported.length + 1) * Gen.C11.supported.length := by decide +kernel
 
-/-- The enum values the model uses are the ones in api/lzma/base.h and common.h. -/
+/-- The PUBLIC enum values the model uses (lzma_ret, lzma_action) are the ones in
+    api/lzma/base.h and common.h. The private ISEQ_* numbering and the private macros
+    LZMA_ACTION_MAX / LZMA_TIMED_OUT are deliberately not tabulated (their effect is covered by the control table): the probe and the
+    harness use those constants only symbolically. -/
 theorem enum_values_bridge :
     Gen.C11.retValues = [("LZMA_OK", LZMA_OK), ("LZMA_STREAM_END", LZMA_STREAM_END), ("LZMA_NO_CHECK", LZMA_NO_CHECK),
       ("LZMA_UNSUPPORTED_CHECK", LZMA_UNSUPPORTED_CHECK), ("LZMA_GET_CHECK", LZMA_GET_CHECK),
@@ -676,14 +679,9 @@ theorem enum_values_bridge :
       ("LZMA_FORMAT_ERROR", LZMA_FORMAT_ERROR), ("LZMA_OPTIONS_ERROR", LZMA_OPTIONS_ERROR),
       ("LZMA_DATA_ERROR", LZMA_DATA_ERROR), ("LZMA_BUF_ERROR", LZMA_BUF_ERROR), ("LZMA_PROG_ERROR", LZMA_PROG_ERROR),
       ("LZMA_SEEK_NEEDED", LZMA_SEEK_NEEDED), ("LZMA_RET_INTERNAL1", LZMA_RET_INTERNAL1),
-      ("LZMA_RET_INTERNAL8", LZMA_RET_INTERNAL8), ("LZMA_TIMED_OUT", LZMA_TIMED_OUT)]
+      ("LZMA_RET_INTERNAL8", LZMA_RET_INTERNAL8)]
     ∧ Gen.C11.actionValues = [("LZMA_RUN", LZMA_RUN), ("LZMA_SYNC_FLUSH", LZMA_SYNC_FLUSH),
-      ("LZMA_FULL_FLUSH", LZMA_FULL_FLUSH), ("LZMA_FINISH", LZMA_FINISH), ("LZMA_FULL_BARRIER", LZMA_FULL_BARRIER),
-      ("LZMA_ACTION_MAX", LZMA_ACTION_MAX)]
-    ∧ Gen.C11.seqValues = [("ISEQ_RUN", Seq.run.code), ("ISEQ_SYNC_FLUSH", Seq.syncFlush.code),
-      ("ISEQ_FULL_FLUSH", Seq.fullFlush.code), ("ISEQ_FINISH", Seq.finish.code),
-      ("ISEQ_FULL_BARRIER", Seq.fullBarrier.code), ("ISEQ_END", Seq.end_.code), ("ISEQ_ERROR", Seq.error.code)]
-    ∧ Gen.C11.reservedEnum = 0
-    ∧ Gen.C11.supportedActionsLen = LZMA_ACTION_MAX + 1 := by decide
+      ("LZMA_FULL_FLUSH", LZMA_FULL_FLUSH), ("LZMA_FINISH", LZMA_FINISH), ("LZMA_FULL_BARRIER", LZMA_FULL_BARRIER)]
+    ∧ Gen.C11.reservedEnum = 0 := by decide
 
 end XzVerif.C11
